@@ -476,7 +476,8 @@ class MetadorGroup(MetadorNode):
             dst_path = dest
         elif isinstance(dest, MetadorGroup):
             self._guard_path(dst_name)  # name could be passed by the user
-            dst_path = dest.name + f"/{dst_name}"
+            # NOTE: name of the root group is "/" -> must not produce "//name"
+            dst_path = dest.name.rstrip("/") + f"/{dst_name}"
         else:
             raise ValueError("Copy dest must be path or Group!")
 
